@@ -35,6 +35,16 @@ def gen_octets(ctx):
     return out
 
 
+def gen_large_octets(ctx):
+    """Large inputs (implementation-level oracle only: too big for Coq literals): lengths around
+    powers of two and buffer-size-like constants, all residues modulo 3."""
+    rng = ctx.rng
+    sizes = [16383, 16384, 16385, 32768, 49152, 65535, 65536, 65537, 65538, 98304, 131072, 131073, 262144 + 1]
+    if not ctx.quick:
+        sizes += [1 << 20, (1 << 20) + 1, (1 << 20) + 2, 3 * (1 << 20) + 1]
+    return [rng.randbytes(n) for n in sizes]
+
+
 REP = [ord("A"), ord("Q"), ord("z"), ord("9"), ord("-"), ord("_"), ord("="), ord("+"), ord("/"),
        ord(" "), ord("\n"), ord("."), 0x80, 0xFF, 0x00]
 
@@ -247,6 +257,35 @@ def run(ctx):
         if d[0] != "ok" or d[1] != x:
             ctx.violation({"kind": "b64-roundtrip"}, "decode(encode(x)) != x for x=%s" % x.hex()[:32],
                           {"fn": "roundtrip", "arg_hex": x.hex(), "encoded": e.decode("latin1"), "decoded": repr(d[1])[:80]})
+    # ---- large inputs: reference = the codec specification computed independently (3 octets -> 4 characters)
+    import base64 as _b64
+    dist["enc_large"] = 0
+    for x in gen_large_octets(ctx):
+        ctx.note_case(("enc-large", len(x), x[:8]))
+        dist["enc_large"] += 1
+        r = call(util.urlsafe_b64encode, x)
+        ref = _b64.b64encode(x).rstrip(b"=").replace(b"+", b"-").replace(b"/", b"_")
+        if r[0] != "ok" or r[1] != ref:
+            ctx.violation({"kind": "b64-large"}, "urlsafe_b64encode of %d octets is not the base64url text of the input" % len(x),
+                          {"fn": "urlsafe_b64encode-large", "length": len(x), "seed": ctx.seed})
+            continue
+        d = call(util.urlsafe_b64decode, r[1])
+        if d[0] != "ok" or d[1] != x:
+            ctx.violation({"kind": "b64-roundtrip"}, "decode(encode(x)) != x for %d random octets" % len(x),
+                          {"fn": "roundtrip-large", "length": len(x), "seed": ctx.seed})
+        # the same through a token: a compact JWS with a large payload must return the payload
+        if len(x) <= 131073:
+            try:
+                from joserfc import jws as _jws
+                from joserfc.jwk import OctKey as _Oct
+                _k = _Oct.import_key(b"k" * 32)
+                _t = _jws.serialize_compact({"alg": "HS256"}, x, _k)
+                if _jws.deserialize_compact(_t, _k).payload != x:
+                    ctx.violation({"kind": "b64-roundtrip"}, "a compact JWS with a %d-octet payload verifies but returns another payload" % len(x),
+                                  {"fn": "jws-large", "length": len(x), "seed": ctx.seed})
+            except Exception as e:
+                ctx.violation({"kind": "b64-roundtrip"}, "a compact JWS with a %d-octet payload does not round trip: %r" % (len(x), e),
+                              {"fn": "jws-large", "length": len(x), "seed": ctx.seed})
     # ---- decoder on arbitrary strings
     for s in gen_strings(ctx):
         r = call(util.urlsafe_b64decode, s)
